@@ -108,5 +108,7 @@ Refines == done => /\ AsIsV(rows) = IdealV(rows)
 
 Dump == done => PrintT(<<"REPLAY", ToJson([tokens |-> rows,
                                            ideal |-> [v |-> IdealV(rows), f |-> IdealF(rows)],
+                                           rd |-> [rows |-> ValRows(rcells),
+                                                   reps |-> ReadTable(rows).reps],
                                            dev |-> <<>>])>>)
 =============================================================================
